@@ -32,7 +32,7 @@ ClassDecls == << Class("A", <<>>, <<>>, <<>>, <<>>), Class("B", <<>>, <<Parent("
                  Class("C", <<>>, <<>>, <<>>, <<>>), Class("D", <<>>, <<Parent("B", <<>>)>>, <<>>, <<>>) >>
 
 \* canonical expressions of a type: literal / constructor call, or a variable defined in the setup
-Lit(ty) == CASE ty = "Int" -> IntL(1) [] ty = "Float" -> FloatL("1.5") [] ty = "Str" -> StrL("s") [] ty = "Bool" -> BoolL(TRUE)
+Lit(ty) == CASE ty = "K" -> New("K", <<>>) [] ty = "Int" -> IntL(1) [] ty = "Float" -> FloatL("1.5") [] ty = "Str" -> StrL("s") [] ty = "Bool" -> BoolL(TRUE)
              [] ty = "None" -> NoneL [] ty \in Classes -> New(ty, <<>>)
 VarName(t) == (IF t.q THEN "n_" ELSE "v_") \o t.b
 VarOf(t)   == Var(VarName(t))
